@@ -25,7 +25,8 @@ class LoopSpec:
     by the invariant.
     """
 
-    def __init__(self, inv, fresh=None, label=None, unroll=False, shapes=None):
+    def __init__(self, inv, fresh=None, label=None, unroll=False, shapes=None, hints=None):
+        self.hints = hints    # hints(view) -> [(label, premise, conclusion)]: prove premise, then assume conclusion
         self.inv = inv
         self.fresh = fresh or {}
         self.label = label
@@ -195,6 +196,7 @@ class Interp:
                 o = Outcome("return", o.state, None)
             elif o.kind in ("break", "continue"):
                 raise Unsupported("break/continue outside loop")
+            o.locals = o.state.env
             o.state.env = saved_env
             res.append(o)
         return res
@@ -506,6 +508,10 @@ class Interp:
         return c[key]
 
     def inv_check(self, spec, view, label, node):
+        if spec.hints is not None and label.endswith("inv-preserved"):
+            for (hl, prem, concl) in spec.hints(view):
+                self.oblige(f"{label.rsplit('-inv-', 1)[0]}-hint:{hl}", view.state, prem, node)
+                view.state.assume(concl)
         invs = spec.inv(view)
         if not isinstance(invs, (list, tuple)):
             invs = [invs]
